@@ -275,15 +275,14 @@ def names_in(e):
 
 
 def walk_no_nested(node):
-    """ast.walk that does not descend into nested function/lambda definitions"""
+    """pre-order (source order) walk that does not descend into nested function/lambda definitions"""
     todo = [node]
     while todo:
         n = todo.pop()
         yield n
-        for c in ast.iter_child_nodes(n):
-            if isinstance(c, (ast.FunctionDef, ast.Lambda, ast.AsyncFunctionDef)):
-                continue
-            todo.append(c)
+        kids = [c for c in ast.iter_child_nodes(n)
+                if not isinstance(c, (ast.FunctionDef, ast.Lambda, ast.AsyncFunctionDef))]
+        todo.extend(reversed(kids))
 
 
 def calls_in(node, name=None):
